@@ -3,9 +3,11 @@
 Recipe
 ------
 {"types": {"t0": ["U", n] | ["RG", n, dist] | ["RG2", [n1, n2], [d1, d2]] | ["T", a, dist, b], ...},
- "mtypes": {"m0": {"x": "t0", "y": "t1"}},          # MultiDomain-valued intermediate types
+ "mtypes": {"m0": {"x": "t0", "y": "t1"},           # MultiDomain-valued intermediate types
+            "mk0": {"a": "t0", "b": "t0h"}, "mk1": {"b": "t0h"}},   # "mk*": MultiDomains of input keys themselves
  "keys":  {"a": "t0", "b": "t0h", ...},             # input key -> type ("<t>h" = harmonic partner of <t>)
  "expr":  tree,                                     # see build() / build_energy()
+ "seq":   {"perm": [keys...], "nconst": 2|3},       # 4 keys: which constants are fixed one after the other
  "x":     {"a": [...], ...},                        # full position (flat values per key)
  "y":     {"a": [...], ...},                        # second position (value check of the specialised operator)
  "adapter": {"min": "NewtonCG", "iters": 2, "wm": true}}   # energy subs only
@@ -14,7 +16,14 @@ Field-valued nodes: ["var", key] ["duck", key, chain-on-["id", type]] ["ptw", f,
 ["clip", lo, hi, x] ["scale", c, x] ["neg", x] ["diag", vec, x] ["addf", vec, x, plus?] ["addc", c, x]
 ["dense", M, to_type, x] ["hart", x] ["sum", x] ["integrate", x] ["mul"|"add"|"sub"|"div"|"vdot", l, r]
 ["pack", mtype, {tkey: x}] ["get", tkey, x] ["subst", zkey, ztype, inner, outer, use_partial_insert]
-["jax", template, [keys]].   Energy nodes: ["gauss", data|None, icov|None, model] ["poisson", counts, model]
+["jax", template, [keys]] ["lop", A, B, lop] (LinearOperator dom(mk-type A) -> dom(mtype B) acting directly on the
+input keys of A) ["lapp", A, B, lop, x] (the same applied to an A-valued expression).
+Linear operators between MultiDomains (build_lop): ["id", A, c] ["diag", A, {tkey: vec}] ["block", A, {tkey: M}]
+(BlockDiagonalOperator, missing entries = identity) ["proj", A, [tkeys]] (PartialExtractor.adjoint @ PartialExtractor)
+["pe", A, B] ["pe_adj", A, B] ["mix", A, B, [[tkey_in, tkey_out, M, neg], ...], "make"|"arith"] (sum of dense maps
+between single components, by SumOperator.make(ops, neg) or by + / - / unary minus) ["chain", l1, l2]
+["sum", [l...], [neg...]] (SumOperator.make) ["add"|"sub", l1, l2] ["scale", c, l] ["neg", l] ["adj", l].
+Energy nodes: ["gauss", data|None, icov|None, model] ["poisson", counts, model]
 ["bernoulli", bits, model] ["invgamma", beta, alpha, model] ["studentt", theta, model]
 ["vcge", full_fisher, res_model, icov_model] ["vcge_raw", res_key, icov_key, full_fisher]
 ["jaxlh", [ka, kb], data] ["lhsum", e1, e2] ["escale", c, e] ["ham", ic_iter|None, prior_dtype, e]
@@ -29,6 +38,12 @@ un-specialised operator: for EVERY non-empty proper subset K of op.domain.keys()
     dense Jacobian of op2 at x|V   == columns V of dense Jacobian of op at x
     dense metric   of op2 at x|V   == (V, V) block of dense metric of op at x     (energies)
     Jacobian of op at Linearization.make_partial_var(x, K) == [J_V | 0]
+
+SEQUENCES of specialisations: for constant sets K with >= 2 keys (all of them for <= 3 keys, the one drawn in
+"seq" for 4 keys) and EVERY ordered partition (G1, ..., Gm), m >= 2, of K, the operator obtained by specialising
+for x|G1, then specialising the result for x|G2, ... must satisfy the same domain / target / value / Jacobian /
+metric relations against the un-specialised operator (buckets prefixed "seq_"; intermediate stages of longer
+sequences: value); for energies also EnergyAdapter(x|rest, <op specialised for G1>, constants=G2).
 
 and ift.EnergyAdapter(x, op, constants=K): position/gradient/metric live on keys \\ K only, value,
 gradient and metric equal the restricted quantities of `op`, and after a few minimiser steps the
@@ -62,13 +77,16 @@ TECHNIQUE = "PBT: metamorphic/differential (specialised vs. un-specialised opera
 RULE = ("Typed random multi-key (2-4 keys, <=6 pixels per key) operator and energy expression trees over "
         "FieldAdapters, linear operators (scaling, diagonal, dense harness matrix, Hartley, contraction, "
         "integration, adder), pointwise nonlinearities on valid ranges, * + - / @ vdot sum ducktape "
-        "partial_insert, MultiDomain-valued intermediates; energies: Gaussian (with/without data, inverse "
+        "partial_insert, MultiDomain-valued intermediates, LinearOperators acting on MultiDomains of several input "
+        "keys (BlockDiagonal, PartialExtractor and projections, SumOperator.make with explicit signs, identity "
+        "+/- operator, chains, scalings, adjoints) as leaves and around nonlinear parts; energies: Gaussian (with/without data, inverse "
         "covariance), Poissonian, Bernoulli, InverseGamma, StudentT, VariableCovarianceGaussian (raw and "
         "chained), likelihood sums, scaled likelihoods, AveragedEnergy, StandardHamiltonian with/without "
         "ic_samp, generic energy sums. For every tree EVERY non-empty proper subset of the input keys is made "
         "constant; oracle = value / dense Jacobian / dense metric of the specialised operator against the "
-        "corresponding restriction of the un-specialised one; EnergyAdapter(constants=K) before and after "
-        "minimiser steps.")
+        "corresponding restriction of the un-specialised one; the same for constants fixed group after group "
+        "(every ordered partition of a constant set: specialise, then specialise the result again); "
+        "EnergyAdapter(constants=K) before and after minimiser steps, also on an already specialised energy.")
 LEVEL_TEXT = ("Generated search over expression programs and inputs with an exhaustive loop over constant-key "
               "subsets per program; every relation of the property is compared on dense matrices, so a wrong "
               "specialisation of any node class that is generated shows up as an O(1) mismatch. Exploration, not "
@@ -82,6 +100,9 @@ ASSUMPTIONS = [
     "real float64 fields only; values are dyadic in [-2, 2] (strictly positive keys in [1/4, 2])",
     "comparison tolerance 1e-9 relative to max(1, |a|, |b|): both sides perform the same floating-point "
     "operations up to re-association in rebuilt sums/chains",
+    "the classes histogram entries reach_<Class> are recorded by wrapping the per-class "
+    "_simplify_for_constant_input_nontrivial overrides with a counting pass-through during the check "
+    "(observation only; restored afterwards)",
     "exceptions raised inside a minimiser run (line search on non-convex generated energies) are not counted "
     "against this property; they are recorded as class 'minimiser_raised'",
 ]
@@ -777,8 +798,13 @@ def core_check(rec, energy):
                     require(isinstance(res, tuple) and len(res) == 2, "seq_return_shape", f"{type(res)}")
                     staged[pre] = res[1]
                     done = set().union(*pre)
-                    _compare(op, res[1], dom, keys, done, X, Y, ref, wm, "seq_",
-                             "constants fixed one group after the other: " + " then ".join(map(str, pre)))
+                    what = "constants fixed one group after the other: " + " then ".join(map(str, pre))
+                    if j < len(seq):
+                        # intermediate stage of a longer sequence: value only (all relations at the end)
+                        close(_val(res[1](X.extract_by_keys([k for k in keys if k not in done]))), val0,
+                              "seq_value", tol=TOL, detail=what)
+                        continue
+                    _compare(op, res[1], dom, keys, done, X, Y, ref, wm, "seq_", what)
                     classes.add(f"seq_{j}_steps")
                     classes.add("seq_result_" + type(res[1]).__name__)
     classes |= trace.classes()
@@ -949,13 +975,16 @@ def check_energy(rec):
                     continue
                 op1 = r.oneshot[frozenset(seq[0])]
                 pos1 = X.extract_by_keys([k for k in keys if k not in seq[0]])
-                E = ift.EnergyAdapter(pos1, op1, constants=list(seq[1]), want_metric=wm, nanisinf=True)
-                _adapter_relations(op, E, Kset, keys, cpart, wm, f"prespecialised for {seq[0]}, constants={seq[1]}",
-                                   ref0)
+                # (metric of the adapter and minimiser steps for the first pair only; the metric of every
+                # sequence-specialised energy has been compared above)
+                wm1 = wm and first
+                E = ift.EnergyAdapter(pos1, op1, constants=list(seq[1]), want_metric=wm1, nanisinf=True)
+                _adapter_relations(op, E, Kset, keys, cpart, wm1,
+                                   f"prespecialised for {seq[0]}, constants={seq[1]}", ref0)
                 classes.add("adapter_on_prespecialised")
                 if first:
                     first = False
-                    _minimise(op, E, Kset, keys, cpart, wm, name, ad["iters"], classes,
+                    _minimise(op, E, Kset, keys, cpart, wm1, name, ad["iters"], classes,
                               f"after_steps prespecialised for {seq[0]}, constants={seq[1]}")
     return _finish(rec, r)
 
@@ -1767,11 +1796,13 @@ SUBS = [
         quick=640, thorough=20000, shards=2,
         rule="field-, scalar- or MultiDomain-valued nonlinear expression trees; non-trivial = some constant "
              "subset cuts through a binary node below the root (constant and variable inputs reach it) and the "
-             "tree has >= 2 binary nodes; every case loops over ALL non-empty proper key subsets"),
+             "tree has >= 2 binary nodes, or cuts through a multi-key linear-operator leaf; every case loops over "
+             "ALL non-empty proper key subsets and over all ordered partitions of the sequence constant sets"),
     Sub(name="linear_ops", check=check_field, strategy=lambda tier: field_recipes(tier, "linear"),
         quick=280, thorough=10000, shards=1,
-        rule="purely linear trees (SumOperator / ChainOperator / BlockDiagonal paths of the library's linear "
-             "algebra with multi-key domains); non-trivial as for field_ops"),
+        rule="purely linear trees (SumOperator / ChainOperator / BlockDiagonal / PartialExtractor paths of the "
+             "library's linear algebra with multi-key domains, sums with explicit signs); non-trivial as for "
+             "field_ops"),
     Sub(name="likelihoods", check=check_energy, strategy=lambda tier: energy_recipes(tier, "lh"),
         quick=180, thorough=8000, shards=4,
         rule="likelihood energies (sums, scaled, raw VariableCovarianceGaussianEnergy) incl. metric and "
